@@ -1,14 +1,1 @@
 package main
-
-import (
-	"fmt"
-
-	"github.com/spq/pkappa2/verif/sim"
-)
-
-func runHTTPCheck(prop, tier string, cfg checkCfg, seed uint64, budget int) int {
-	fmt.Println("httpsim not built yet")
-	return 2
-}
-
-func replayHTTP(path string, rf sim.ReplayFile) int { return 2 }
